@@ -2,3 +2,4 @@ pub mod c04;
 pub mod c05;
 pub mod fm;
 pub mod c18;
+pub mod c19;
